@@ -33,9 +33,9 @@ THEOREMS = [f"NauyacaVerif.C02.{t}" for t in (
     "pctDecode_pctEncode", "utf8Dec_utf8Enc", "canon_segments_clean", "index_rechecked", "metas_tie", "single_read_tie")]
 THEOREMS = list(THEOREMS) + ['NauyacaVerif.Translated.canonicalPath_eq', 'NauyacaVerif.Translated.canonStep_eq']
 TRANSLATED = ['canonicalPath']
-LEAN_TARGETS = LEAN_TARGETS + ["NauyacaVerif.Props.Tr.StaticHandle"]
-TRANSLATED = list(globals().get("TRANSLATED", [])) + ["staticHandle"]
-THEOREMS = THEOREMS + [f"NauyacaVerif.Translated.{t}" for t in ("index_loop", "static_handle_eq")]
+LEAN_TARGETS = LEAN_TARGETS + ["NauyacaVerif.Props.Tr.StaticHandle", "NauyacaVerif.Props.Tr.IsSafePath"]
+TRANSLATED = list(globals().get("TRANSLATED", [])) + ["staticHandle", "isSafePath"]
+THEOREMS = THEOREMS + [f"NauyacaVerif.Translated.{t}" for t in ("index_loop", "static_handle_eq", "is_safe_path_eq", "is_safe_path_iff")]
 EXTRACT = ["defaultMaxFileSize"]
 ASSUMPTIONS = [
     "OS contract (DESIGN.md §3): Path.resolve is idempotent and reading through a path equals reading through its resolution; the theorems are over an abstract OS structure, containment is stated for the value resolve() returned",
